@@ -114,7 +114,8 @@ def c01_encoding(tier, seed):
 
 
 def c02_solutions(tier, seed):
-    """C02: every in-bounds integer point of the polyhedron of a solver-safe model has satisfying leaves"""
+    """C02: every in-bounds integer point of the polyhedron of a solver-safe model has satisfying leaves; every satisfying
+    leaf assignment extends to a point"""
     import numpy as np
     r = _result("rt.c02_solutions", "random validated solver-safe models over small-range leaves, ALL in-bounds integer points "
                 "of the asserted polyhedron enumerated (<= 20000 per model, auxiliaries free); unsafe models are counted "
@@ -168,6 +169,51 @@ def c02_solutions(tier, seed):
                 else:
                     bad_unsafe += 1
         canary += 1 if bad_unsafe else 0
+        # completeness: every satisfying leaf assignment (enumerated from the MODEL's own leaf bounds) extends to a point
+        import pickle as _pk
+        for env in assignments(leaves_of(m), rng0, 32):
+            if ref_truth(m, env) != 1:
+                continue
+            props = _pk.loads(_pk.dumps(m)).evaluate_propositions(dict(env))
+            try:
+                x = [int(props[c.id].constant) for c in cols]
+            except Exception:
+                _viol(r, "c02.valid-configuration-lost", {"model": text, "env": {str(k): v for k, v in env.items()}}, reason="column without value")
+                continue
+            r["evaluations"] += 1
+            inb = all(c.bounds.lower <= xi <= c.bounds.upper for c, xi in zip(cols, x))
+            sat = all(sum(int(a_) * xi for a_, xi in zip(row, x)) >= int(b_) for row, b_ in zip(A.tolist(), b.tolist()))
+            if not (inb and sat):
+                _viol(r, "c02.valid-configuration-lost", {"model": text, "env": {str(k): v for k, v in env.items()}},
+                      in_bounds=inb, satisfied=sat)
+    # wide integer leaves: sampled in-bounds points of the polyhedron of safe models (exact integer arithmetic)
+    import puan.logic.plog as pg
+    wide = [puan.variable("w1", (0, 2000000000)), puan.variable("w2", (0, 2000000000)), puan.variable("w3", (-32768, 32767)),
+            puan.variable("w4", (0, 20000))]
+    for _ in range(20 if tier == "quick" else 150):
+        a, b2 = rng0.sample(wide, 2)
+        k = rng0.choice([3000000000, 2500000000, 40000, 30000, 1])
+        m = rng0.choice([lambda: pg.All(pg.AtLeast(k, [a, b2], variable="W"), "q", variable="T"),
+                         lambda: pg.Any(pg.AtLeast(k, [a, b2], variable="W"), "q", variable="T")])()
+        if m.errors() != [] or not solver_safe(m):
+            continue
+        poly = m.to_ge_polyhedron(active=True)
+        cols = list(poly.A.variables)
+        Al = [[int(t) for t in row] for row in np.asarray(poly.A).tolist()]
+        bl = [int(t) for t in np.asarray(poly.b).tolist()]
+        for _k in range(60):
+            x = []
+            for c in cols:
+                lo, hi = c.bounds.lower, c.bounds.upper
+                x.append(rng0.choice([lo, hi, (lo + hi) // 2, min(hi, max(lo, k // 2)), min(hi, max(lo, k - 1)), min(hi, max(lo, k // 2 + 1)),
+                                      rng0.randint(lo, hi)]))
+            if not all(sum(a_ * xi for a_, xi in zip(row, x)) >= b_ for row, b_ in zip(Al, bl)):
+                continue
+            env = {c.id: xi for c, xi in zip(cols, x) if is_var(c)}
+            r["evaluations"] += 1
+            r["_seen"].add((m.to_text(), "wide"))
+            if ref_truth(m, env) != 1:
+                _viol(r, "c02.safe-model-point-violates", {"model": m.to_text(), "point": {str(c.id): xi for c, xi in zip(cols, x)}})
     r["unsafe_models_with_spurious_points"] = canary
     return _finish(r)
 
